@@ -2,6 +2,7 @@ package main
 
 import (
 	"fmt"
+	"os"
 	"strings"
 	"time"
 
@@ -111,6 +112,30 @@ func init() {
 				}
 				cfgCase(cw, c, fmt.Sprintf("required-mask=%d cs=%T", mask, cs))
 			}
+		}
+		// the variables the command line tool reads (E3DC_HOST, …) are set in the process: the library takes its configuration
+		// from the ClientConfig alone
+		for _, kv := range [][2]string{{"E3DC_HOST", "envhost"}, {"E3DC_USER", "envuser"}, {"E3DC_PASSWORD", "envpw"}, {"E3DC_KEY", "envkey"}, {"E3DC_PORT", "1234"}, {"E3DC_DEBUG", "6"}} {
+			os.Setenv(kv[0], kv[1])
+		}
+		for mask := 0; mask < 16; mask++ {
+			c := rscp.ClientConfig{}
+			if mask&1 != 0 {
+				c.Address = "host"
+			}
+			if mask&2 != 0 {
+				c.Username = "user"
+			}
+			if mask&4 != 0 {
+				c.Password = "pw"
+			}
+			if mask&8 != 0 {
+				c.Key = "key"
+			}
+			cfgCase(cw, c, fmt.Sprintf("required-mask=%d with E3DC_* in the environment", mask))
+		}
+		for _, k := range []string{"E3DC_HOST", "E3DC_USER", "E3DC_PASSWORD", "E3DC_KEY", "E3DC_PORT", "E3DC_DEBUG"} {
+			os.Unsetenv(k)
 		}
 		// user names, passwords, addresses and keys of unusual but legal shape
 		for _, v := range []string{"@", "@home", "a@", "@@", "user@example.org", "@" + strings.Repeat("x", 300), " ", "\t", "\x00", "ä", "😀", "%s", "%!d(string=x)", "a b", "-", "--user", "=", "\\", "\"", "'"} {
